@@ -119,7 +119,7 @@ def r03b(chk, rid='R03.b'):
     chk.ob(rid, HELPER, 'uri', 'the scan reaches a refused character wherever it stands', not blind, f'characters {blind!r} stop the scan without triggering quoting')
     fn = m.get('uri')
     src = ast.unparse(fn)
-    chk.ob(rid, HELPER, 'uri', 'quoted form is produced by helper.string', 'value = string(value)' in src and "'url(%s)' % value" in src, '')
+    chk.ob(rid, HELPER, 'uri', 'quoted form is produced by helper.string', 'value = string(value)' in src and "'url(%s)' % value" in src, '', shape=True)
     chk.ob(rid, HELPER, 'uri', "closing parenthesis, quotes and white space are among the quoting triggers", all(ord(c) in quoting for c in ')"\' \t\n'), '')
 
 
